@@ -544,10 +544,12 @@ class Executor:
         if r is None:
             t0 = time.time()
             r, _ = S.quick_check(st.pc + [extra], self.quick_ms)
-            if r == 'unknown' and self.opts.get('feas_cvc5'):
+            fr0 = st.frames[-1]
+            deep = fr0.visits.get(fr0.block, 0) >= 36     # far into a loop: do not keep unrolling on "unknown"
+            if r == 'unknown' and (self.opts.get('feas_cvc5') or deep):
                 # z3 is weak on these; cvc5 usually answers in tens of milliseconds
                 text, em = T.to_smt(st.pc + [extra], want_model=False)
-                res = S.portfolio(text, [], self.opts.get('feas_timeout', 3), ('cvc5',))
+                res = S.portfolio(text, [], self.opts.get('feas_timeout', 10 if deep else 3), ('cvc5', 'z3-new') if deep else ('cvc5',))
                 r = res['verdict'] if res['verdict'] in ('sat', 'unsat') else 'unknown'
             self.query_cache[key] = r
             dt = time.time() - t0
@@ -697,6 +699,12 @@ class Executor:
         fr.ip = n
         c = fr.visits.get(target, 0) + 1
         fr.visits[target] = c
+        if c % 40 == 0 and st.pc:
+            # long-running loop decided by intervals only: make sure the path itself is still feasible
+            text, em = T.to_smt(st.pc, want_model=False)
+            res = S.portfolio(text, [], 20, self.solvers)
+            if res['verdict'] == 'unsat':
+                raise PathEnd('infeasible')
         if c > st.bound:
             self.fail_unwind(st, fn, target)
         st.just_entered = True
